@@ -500,6 +500,15 @@ class Run:
             except Exception as err:  # noqa: BLE001
                 rec.emit("note", what="other-definition", action=act, exc=f"{type(err).__name__}: {err}"[:200])
             return
+        if self.sm is None and act == "construct_incomplete" and self.mod is None:
+            # before the main machine exists: a rejected construction must leave nothing behind
+            try:
+                self.mod, self.source = render.load(self.spec, rec)
+                self.preloaded = True
+                self._construct_incomplete()
+            except Exception as err:  # noqa: BLE001
+                rec.emit("note", what="other-definition", action=act, exc=f"{type(err).__name__}: {err}"[:200])
+            return
         if self.sm is None:
             return
         if not hasattr(self, "other_log"):
@@ -600,7 +609,11 @@ class Run:
             with _w.catch_warnings():
                 _w.simplefilter("ignore")
                 try:
-                    type(self.sm)(_Bare())
+                    cls = type(self.sm) if self.sm is not None else getattr(self.mod, f"M_{sp['uid']}")
+                    for nm, g in sp["guards"].items():      # attribute guards live on the class
+                        if g["kind"] == "attr" and "sm" in g["providers"] and not hasattr(cls, nm):
+                            setattr(cls, nm, True)
+                    cls(_Bare())
                     got = "built"
                 except InvalidDefinition:
                     got = "rejected"
